@@ -18,3 +18,4 @@ OBLIGATIONS = OBLIGATIONS + [K.WIG_TILING, K.BED_TILING]
 # type-resolved rules over the MIR facts (tools/bt-mir)
 OBLIGATIONS = OBLIGATIONS + [K.MIR_COORD_ARITH, K.MIR_INPUT_UNWRAPS, K.MIR_RESULTS]
 OBLIGATIONS = OBLIGATIONS + [K.EMPTY_AND_TOOL_REFUSALS]
+OBLIGATIONS = OBLIGATIONS + [K.NODE_COUNTS]
